@@ -972,8 +972,14 @@ func (c *CreateIndexStatement) SQL() string {
 	cols := make([]string, len(c.Columns))
 	for i, col := range c.Columns {
 		s := col.Column
+		if col.Collate != "" {
+			s += " COLLATE " + col.Collate
+		}
 		if col.Direction != "" {
 			s += " " + col.Direction
+		}
+		if col.NullsLast {
+			s += " NULLS LAST"
 		}
 		cols[i] = s
 	}
@@ -1433,7 +1439,12 @@ func joinSQL(j *JoinClause) string {
 	sb.WriteString(j.Type)
 	sb.WriteString(" JOIN ")
 	sb.WriteString(tableRefSQL(&j.Right))
-	if j.Condition != nil {
+	if cols, ok := j.Condition.(*ListExpression); ok && cols != nil {
+		// JOIN ... USING (a, b): the parser keeps a column list of two or more names as a ListExpression
+		sb.WriteString(" USING (")
+		sb.WriteString(exprSQL(cols))
+		sb.WriteString(")")
+	} else if j.Condition != nil {
 		sb.WriteString(" ON ")
 		sb.WriteString(exprSQL(j.Condition))
 	}
